@@ -476,7 +476,9 @@ def main():
         # divergence in that case: search for a public manifestation. Stale bookkeeping shows itself in a LATER
         # operation, so follow-up operations are appended to the UNSHRUNK history (it has the most state):
         # a fixed battery first, then the operation lists of other cases of the same run (same object slots).
-        other_cases = [ls2[1:] for (_, ls2) in cases if len(ls2) > 1]
+        # (cases that contain an operation of a known-finding input class are not used as follow-ups: what diverges in
+        # them is the finding, not a manifestation of the hidden difference)
+        other_cases = [ls2[1:] for (_, ls2) in cases if len(ls2) > 1 and not any(_known_class(l, k) for l in ls2 for k in ('spec', 'pred:fix'))]
         for s0 in sorted(first_hid):
             if s0 in seen_cases or len(violations) >= 5: continue
             if violations and all(v[3] for v in violations) and len(violations) >= 2: break   # enough concrete inputs already
